@@ -28,6 +28,7 @@ type c13Pair struct {
 	Name  string    `json:"name"`
 	Keep  bool      `json:"keep"`
 	Comp  compSpec  `json:"comp"`           // compression of the sender: its large messages travel as Z frames, the small ones plain
+	Imp   bool      `json:"imp,omitempty"`  // sent with the important-delivery flag (the order bytes must not depend on it)
 	Huge  bool      `json:"huge,omitempty"` // every second message of the pair is larger than 64 KiB (one frame that does not fit any write buffer)
 }
 
@@ -120,6 +121,7 @@ func genC13Case(r *rand.Rand, i int) c13Case {
 		p.Alias = [3]uint64{genID(r), 1000 + uint64((i*5+k)%255) + 255*uint64(r.Intn(3)), genID(r)}
 		p.Name = fmt.Sprintf("srv%d", k)
 		p.Keep = r.Intn(12) != 0
+		p.Imp = r.Intn(3) == 0 && (p.Kind == "send_pid" || p.Kind == "send_name" || p.Kind == "send_alias" || p.Kind == "call_pid" || p.Kind == "call_alias")
 		if r.Intn(3) == 0 {
 			p.Comp = compSpec{Enable: true, Type: []string{"gzip", "zlib", "lzw"}[r.Intn(3)], Level: r.Intn(3), Threshold: 1024}
 		}
@@ -274,7 +276,7 @@ func runC13Case(c c13Case) (o c13Obs) {
 				hugeSent[len(sent)] = true
 			}
 			seqs[op.Pair]++
-			m := msgSpec{Kind: pr.Kind, From: pr.From, To: pr.To, Alias: pr.Alias, Name: pr.Name, Keep: pr.Keep, Comp: pr.Comp, Ref: [3]uint64{uint64(len(sent)) + 1, 2, 3}}
+			m := msgSpec{Kind: pr.Kind, From: pr.From, To: pr.To, Alias: pr.Alias, Name: pr.Name, Keep: pr.Keep, Important: pr.Imp, Comp: pr.Comp, Ref: [3]uint64{uint64(len(sent)) + 1, 2, 3}}
 			sent = append(sent, v)
 			sentPair = append(sentPair, op.Pair)
 			o.PoolLens = append(o.PoolLens, poolLen)
@@ -587,6 +589,9 @@ func runC13(n int, outPath, replay string) {
 			}
 			if !p.Keep {
 				out.Stats["keep-order-off"]++
+			}
+			if p.Imp {
+				out.Stats["important-delivery"]++
 			}
 			if p.Comp.Enable {
 				out.Stats["pairs-mixing-compressed-and-plain"]++
